@@ -88,7 +88,9 @@ func checkM1(c *run.Ctx, in Input) {
 	calls = append(calls,
 		"Math.exp(Math.log(P[0]))", "Math.log(Math.exp(P[0]))", "Math.sin(Math.asin(P[0]))", "Math.cos(Math.acos(P[0]))", "Math.tan(Math.atan(P[0]))",
 		"Math.sqrt(P[2])", "Math.pow(P[0],2)", "Math.pow(P[0],0.5)", "Math.pow(P[0],-1)", "Math.pow(P[0],1)", "Math.pow(P[0],3)",
-		"Math.atan2(P[0],1)", "Math.atan2(P[0],-1)", "Math.atan2(Math.sin(P[0]),Math.cos(P[0]))")
+		"Math.atan2(P[0],1)", "Math.atan2(P[0],-1)", "Math.atan2(Math.sin(P[0]),Math.cos(P[0]))", "Math.exp(P[0]-1)",
+		// functions otto ships beyond 15.8.2, tied to the ES5 ones by their defining relations
+		"Math.log10(P[0])", "Math.log2(P[0])", "Math.cosh(P[0])", "Math.sinh(P[0])", "Math.cosh(P[1])", "Math.sinh(P[1])")
 	if !runJS(c, in, "Math:m1", "cap("+strings.Join(calls, ",")+")", len(calls)) {
 		return
 	}
@@ -119,6 +121,7 @@ func checkM1(c *run.Ctx, in Input) {
 		}
 	}
 	ax := math.Abs(x)
+	extraExpM1 := extra[14]
 	// --- range, sign, symmetry of the implementation-dependent results
 	for _, f := range unaryFns {
 		if !G[f] {
@@ -171,6 +174,18 @@ func checkM1(c *run.Ctx, in Input) {
 			if normal(r) && normal(rn) {
 				rel(site, "exp(x) * exp(-x) = 1", near(r*rn, 1, 8, 0), r*rn, 1)
 			}
+			// e^x is representable exactly when x <= ln(largest double) = 709.78271289338397...
+			// and rounds to a non-zero (denormal) number down to ln(2^-1075) = -745.13321910194122...
+			if x <= 709.782712893384 {
+				rel(site, "exp x is finite for x <= ln(MAX_VALUE)", finite(r), r, x)
+			}
+			if x >= -745.1332191019411 {
+				rel(site, "exp x > 0 for x >= ln(MIN_VALUE/2)", r > 0, r, x)
+			}
+			if x > 1 {
+				// one factor e taken out: e^x = e * e^(x-1) (x-1 is exact for x > 1)
+				rel(site, "exp x = e * exp(x-1)", near(r, math.E*extraExpM1, 16, 0) || !finite(extraExpM1*math.E), r, math.E*extraExpM1)
+			}
 		case "log":
 			rel(site, "log x > 0 iff x > 1", (x > 1 && r > 0) || (x < 1 && r < 0), r, x)
 			rel(site, "log x <= x - 1", r <= x-1 || near(r, x-1, 4, 4*eps), r, x-1)
@@ -194,7 +209,8 @@ func checkM1(c *run.Ctx, in Input) {
 	}
 	if x > 0 && finite(x) {
 		l := R["log"]
-		rel("Math.exp", "exp(log x) = x", math.Abs(extra[0]-x) <= x*(4+math.Abs(l))*2*eps+1e-323, extra[0], x)
+		// (relative form: x * tolerance would overflow for x near the largest double)
+		rel("Math.exp", "exp(log x) = x", math.Abs(extra[0]/x-1) <= (4+math.Abs(l))*2*eps || (x < 1e-300 && math.Abs(extra[0]-x) <= x*(4+math.Abs(l))*2*eps+1e-323), extra[0], x)
 		if !normal(x) {
 			// ln is increasing and ln(2^-1022) = -708.39641853226...
 			rel("Math.log", "log x < log(2^-1022) for subnormal x", l < -708.396418532264, l, -708.396418532264)
@@ -236,6 +252,30 @@ func checkM1(c *run.Ctx, in Input) {
 		rel("Math.atan2", "atan2(x,-1) = +-pi - atan x", near(extra[12], want, 4, 8*eps), extra[12], want)
 		if ax < 3.14 {
 			rel("Math.atan2", "atan2(sin x, cos x) = x", math.Abs(extra[13]-x) <= 8*eps, extra[13], x)
+		}
+	}
+	// --- extension functions (not in ES5.1 15.8.2; checked only against their definitions in terms
+	// of exp and log, with a tolerance that catches a wrong function, not a coarse one)
+	if x > 0 && finite(x) {
+		l := R["log"]
+		tol := 64*eps*math.Abs(l) + 1e-13
+		rel("Math.log10", "log10 x = log x / LN10", math.Abs(extra[15]-l/math.Ln10) <= tol, extra[15], l/math.Ln10)
+		rel("Math.log2", "log2 x = log x / LN2", math.Abs(extra[16]-l/math.Ln2) <= tol, extra[16], l/math.Ln2)
+	}
+	if finite(x) {
+		ch, sh, chn, shn := extra[17], extra[18], extra[19], extra[20]
+		rel("Math.cosh", "cosh even, sinh odd", near(ch, chn, 1, 0) && near(sh, -shn, 1, 0), ch, chn)
+		rel("Math.cosh", "cosh x >= 1, sinh keeps the sign", ch >= 1 && (x == 0 || math.Signbit(sh) == math.Signbit(x)), ch, sh)
+		switch {
+		case ax <= 700:
+			e, en := R["exp"], RN["exp"]
+			rel("Math.cosh", "cosh x = (e^x + e^-x) / 2", near(ch, (e+en)/2, 64, 0), ch, (e+en)/2)
+			if ax > 1e-3 {
+				rel("Math.sinh", "sinh x = (e^x - e^-x) / 2", near(sh, (e-en)/2, 1e5, 0), sh, (e-en)/2)
+			}
+		case ax <= 710.4758600739439:
+			// e^|x| / 2 = e^(|x|/2) * e^(|x|/2) / 2 is representable up to |x| = ln(2 * MAX_VALUE)
+			rel("Math.cosh", "cosh x is finite for |x| <= ln(2 MAX_VALUE)", finite(ch) && finite(sh), ch, sh)
 		}
 	}
 	c.Sample(in)
